@@ -551,6 +551,28 @@ pub fn corpus(tier: Tier) -> Vec<Project> {
     let mut p = Project::new(Config::simple("en", &["en"]));
     p.set_file(None, "en", e);
     out.push(p);
+    // keys that look like the plural form of a neighbour but merge with nothing (no `_other`): valid in every order
+    let mut p = Project::new(Config::simple("en", &["en", "fr"]));
+    for l in ["en", "fr"] {
+        let mut e = vec![
+            ("step".to_string(), st(&format!("[{l}.step]"))),
+            ("step_one".to_string(), st(&format!("[{l}.step_one]"))),
+            ("page".to_string(), s(vec![text(&format!("[{l}.page]")), var("x")])),
+            ("page_one".to_string(), st(&format!("[{l}.page_one]"))),
+            ("page_two".to_string(), st(&format!("[{l}.page_two]"))),
+            ("z".to_string(), st(&format!("[{l}.z]"))),
+            ("z_ordinal_one".to_string(), st(&format!("[{l}.z_ordinal_one]"))),
+        ];
+        if l == "fr" {
+            e.reverse();
+        }
+        p.set_file(None, l, e);
+    }
+    out.push(p);
+    // .. and one that does merge next to a key of the base name: the same error in every order
+    let mut p = Project::new(Config::simple("en", &["en"]));
+    p.set_file(None, "en", vec![("item".into(), st("I")), ("item_one".into(), st("1")), ("item_other".into(), st("n")), ("a".into(), st("A"))]);
+    out.push(p);
     // configuration content: an unlisted default that an inherits entry names, namespaces, a custom directory
     let mut cfg = Config { default: Some("en".into()), locales: Some(vec!["fr".into(), "de".into()]), ..Default::default() };
     cfg.inherits = vec![("fr".into(), "en".into()), ("de".into(), "fr".into())];
